@@ -216,7 +216,7 @@ fn exit_kill_after_body(period_ms: u64, kill: bool, busy: bool) -> vsched::Body 
 pub fn plan(tier: &str) -> Plan {
     let thorough = tier == "thorough";
     let cfg = ExecCfg::default();
-    let bound = if thorough { 3 } else { 2 };
+    let bound = if thorough { 4 } else { 3 };
     let mut units = Vec::new();
     for period in [0u64, 1, 5] {
         units.push(Unit::explore(Job::new(format!("send_after/{period}ms/live"), cfg.clone(), Some(bound), send_after_body(period, None, None, false))));
